@@ -165,6 +165,45 @@ def search(ctx):
                               dict(kind="per-channel", form=form, got=repr(r), want=want))
     except Exception as ex:
         ctx.violation("C12:per-channel-probe-raises", "per-channel probe raised %r" % (ex,), dict(kind="per-channel"))
+    # models with MANY free parameters (9 ... 16: two and three spheres with index, radius and position free, plus scaling and
+    # optics): forward is the public calculation of the scatterer built by hand from the values, the likelihood the Gaussian one
+    for nsph, extra in ((2, 0), (2, 1), (2, 2), (3, 1)):
+        try:
+            detm = detector_grid((4, 3), 0.15)
+            vals, members, hand = [], [], []
+            for q in range(nsph):
+                nv, rv, xv, yv, zv = 1.55 + 0.02 * q, 0.3 + 0.05 * q, 0.4 + 1.6 * q, 0.3 + 0.2 * q, 5.0 + 1.5 * q
+                members.append(Sphere(n=Uniform(1.4, 1.7, guess=nv), r=Uniform(0.2, 0.6, guess=rv), center=[Uniform(-1, 6, guess=xv), Uniform(-1, 6, guess=yv), Uniform(3, 12, guess=zv)]))
+                hand.append((nv, rv, xv, yv, zv))
+            kwm = dict(OPT)
+            alpha_m = Uniform(0.5, 1.0, guess=0.8) if extra >= 1 else 0.8
+            if extra >= 2:
+                kwm["medium_index"] = Uniform(1.3, 1.4, guess=1.33)
+            mm_ = AlphaModel(Spheres(members, warn=False), alpha=alpha_m, noise_sd=0.05, theory=Mie(), **kwm)
+            names_ = mm_._parameter_names
+            ctx.tried("many-parameters", (nsph, extra, len(names_)))
+            # move every value off its guess so that a value landing in another place shows
+            pv = {nm: p_.guess * (1 + 0.01 * (k_ + 1)) if not nm.endswith(('.0', '.1')) else p_.guess + 0.02 * (k_ + 1) for k_, (nm, p_) in enumerate(zip(names_, mm_._parameters))}
+            pv = {nm: min(max(v, p_.lower_bound), p_.upper_bound) for (nm, v), p_ in zip(pv.items(), mm_._parameters)}
+            built = Spheres([Sphere(n=pv["%d:n" % q], r=pv["%d:r" % q], center=(pv["%d:center.0" % q], pv["%d:center.1" % q], pv["%d:center.2" % q])) for q in range(nsph)], warn=False)
+            okw = dict(OPT)
+            if extra >= 2:
+                okw["medium_index"] = pv["medium_index"]
+            want_h = calc_holo(detm, built, theory=Mie(), scaling=pv.get("alpha", 0.8), **okw)
+            datam = want_h + 0.01
+            got_h = mm_.forward(pv, detm)
+            infom = dict(kind="many-parameters", spheres=nsph, parameters=list(names_), values={k_: float(v) for k_, v in pv.items()})
+            if not (float(np.abs(np.asarray(got_h.values).ravel() - np.asarray(want_h.values).ravel()).max()) <= 1e-12):
+                ctx.violation("C12:forward:many-parameters", "a model with %d free parameters: forward differs from calc_holo of the scatterer built by hand from the values by %.3g" % (
+                    len(names_), float(np.abs(np.asarray(got_h.values).ravel() - np.asarray(want_h.values).ravel()).max())), infom)
+                continue
+            wantl = float(stats.norm.logpdf((want_h - datam).values.ravel(), 0, 0.05).sum())
+            gotl = float(mm_.lnlike(pv, datam))
+            if not (abs(gotl - wantl) <= 1e-8 * abs(wantl)):
+                ctx.violation("C12:lnlike:many-parameters", "a model with %d free parameters: lnlike %r, Gaussian log-density of the residuals %r" % (len(names_), gotl, wantl), infom)
+        except Exception as ex:
+            import traceback
+            ctx.violation("C12:raises:many-parameters:%s" % type(ex).__name__, "many-parameter model raised %r" % (ex,), dict(kind="raises", tb=traceback.format_exc()[-800:]))
     for i in range(n):
         try:
             nx, ny = int(rng.integers(2, 9)), int(rng.integers(2, 9))
